@@ -41,6 +41,16 @@ def run_case(case):
         return byname_case(case)
     if case.get("kind") == "zero":
         return zero_case(case)
+    if case.get("kind") == "fulldiv_bad":
+        try:
+            SphereGridFactory.create(alg_name="fulldiv", N=case["N"], dimensions=4)
+            return {"violations": [viol(f"C07|fulldiv_{case['N']}|accepted", "fulldiv accepted a size that is not one of its "
+                                        "admissible N (8, 40, 272, 2080)", case)], "N": case["N"]}
+        except ValueError:
+            return {"violations": [], "N": case["N"]}
+        except Exception as e:
+            return {"violations": [viol(f"C07|fulldiv_{case['N']}|raises", f"unsupported fulldiv size raised "
+                                        f"{type(e).__name__} instead of ValueError", case)], "N": case["N"]}
     alg, N, dim = case["alg"], case["N"], case["dim"]
     pre = f"C07|{alg}_{N}"
     vs = []
@@ -183,6 +193,8 @@ def cases(tier):
     for alg, dim in (("zero3D", 3), ("zero4D", 4)):
         for N in (2, 3, 4, 7):
             out.append({"kind": "zero", "alg": alg, "N": N, "dim": dim})
+    for N in (1, 7, 9, 39, 41, 271):
+        out.append({"kind": "fulldiv_bad", "N": N})
     out.append({"alg": "zero3D", "N": 1, "dim": 3})
     out.append({"alg": "zero4D", "N": 1, "dim": 4})
     for b, o in (("1", "1"), ("cube4D_1", "ico_1"), ("randomQ_1", "cube3D_1"), ("zero", "zero"), ("1", "randomS_1"),
